@@ -16,9 +16,11 @@
    is what settlements burnt beyond the principal they retired: a closing bid burns the seized vault's whole
    debt (principal + accrued interest + closing fee), i.e. interest and closing fees of a liquidated vault are
    destroyed, never minted.  Hence supply <= recorded always, and = in histories without liquidations.
-   The hypothesis [hist_ok] (Proofs/VaultLifeHist.v) is inherited from the books invariant [InvL] of C01
-   (the handlers read the books): signers are user accounts, and the auctionsV2 block tick is not run in a
-   state of the known-finding class C01-F4 (ESM auction return).
+   The hypothesis [hist_ok] (Proofs/VaultLifeHist.v) is inherited from the books invariant [InvL] of C01 (the
+   handlers read the books): signers / liquidators / bidders are not the custody account and the environment
+   amounts of a bid respect the bounds of Properties/C10.v c10_bid_amounts.  ESM auction returns (TriggerEsm:
+   what was collected beyond the penalty is burnt, the auction's remaining target debt is re-recorded as the
+   returned vault's principal) are inside the histories quantified over.
    The theorems named ..._messages_... are the earlier statements over histories of vault messages only.
 
    Finding C02-F1 (MsgCreateStableMint, zero draw-down fee: msg.Amount paid out instead of
